@@ -232,7 +232,7 @@ func (c *EWCase) Run() string {
 					bv, ok = cmpop(c.Op, sc, A.arr.E[k])
 				}
 				v = bv
-				if c.SameType || c.Mode == "unsafe" || c.Mode == "reuseA" || c.Mode == "reuseB" || c.Mode == "reuseAv" || c.Mode == "reuseBv" {
+				if c.SameType || c.Mode == "unsafe" || c.Mode == "reuseA" || c.Mode == "reuseB" || c.Mode == "reuseAv" || c.Mode == "reuseBv" || c.Mode == "reuseAx" {
 					if bv {
 						v = oneOf(d)
 					} else {
@@ -279,12 +279,13 @@ func (c *EWCase) Run() string {
 		}
 	}
 	resDT := d
-	if c.Fam == "cmp" && !(c.SameType || c.Mode == "unsafe" || c.Mode == "reuseA" || c.Mode == "reuseB" || c.Mode == "reuseAv" || c.Mode == "reuseBv") {
+	if c.Fam == "cmp" && !(c.SameType || c.Mode == "unsafe" || c.Mode == "reuseA" || c.Mode == "reuseB" || c.Mode == "reuseAv" || c.Mode == "reuseBv" || c.Mode == "reuseAx") {
 		resDT = dtBool
 	}
 	// ---- destination
 	var Dst *opndB
 	var dstT, aliasView *tensor.Dense
+	crossAlias := false
 	var opts []tensor.FuncOpt
 	switch c.Mode {
 	case "safe":
@@ -320,6 +321,21 @@ func (c *EWCase) Run() string {
 		dstT = v.(*tensor.Dense)
 		aliasView = dstT
 		opts = append(opts, tensor.WithReuse(dstT))
+	case "reuseAx":
+		// a destination that aliases operand a only partly and with another layout: a is column 0 of
+		// a square matrix, the destination is its row 0; they share exactly the first element
+		if len(A.b.RootShp) != 2 || A.b.RootShp[0] != A.b.RootShp[1] || A.b.Root == A.b.T {
+			panic("HARNESS: reuseAx needs a column operand")
+		}
+		v, err := A.b.Root.Slice(RS{0, 1, 1})
+		if err != nil || !eqInts([]int(v.Shape()), A.arr.Shape) {
+			return inconclusive
+		}
+		dstT = v.(*tensor.Dense)
+		withEngine(dstT, c.Engine)
+		aliasView = dstT
+		crossAlias = true
+		opts = append(opts, tensor.WithReuse(dstT))
 	default:
 		panic("HARNESS: unknown mode " + c.Mode)
 	}
@@ -333,7 +349,7 @@ func (c *EWCase) Run() string {
 		dest = A
 	case "reuse", "incr":
 		dest = Dst
-	case "reuseA", "reuseAv":
+	case "reuseA", "reuseAv", "reuseAx":
 		dest = A
 	case "reuseB", "reuseBv":
 		dest = B
@@ -382,7 +398,7 @@ func (c *EWCase) Run() string {
 			rec.Class("refused:scalar-shaped-tensor-operand")
 			return A.unchanged("operand a")
 		}
-		if dest != nil && dest != Dst && dest.b.HasGaps() {
+		if dest != nil && dest != Dst && dest.b.HasGaps() && !crossAlias {
 			rec.Class("refused:destination-with-gaps")
 			if m := A.unchanged("operand a"); m != "" {
 				return desc + ": refused, but " + m
@@ -489,6 +505,15 @@ func (c *EWCase) Run() string {
 		if m := B.unchanged("operand b"); m != "" {
 			return desc + ": " + m
 		}
+	}
+	if crossAlias {
+		// row 0 of the shared matrix holds the result; everything else (column 0 below it included) is untouched
+		wantRoot := append([]interface{}{}, A.b.RootE...)
+		copy(wantRoot, readAll(rd))
+		if diff := A.b.FrameDiff(wantRoot); diff != "" {
+			return desc + ": the matrix shared by operand a (column 0) and the destination (row 0): " + diff
+		}
+		return ""
 	}
 	if dest != nil && !dest.b.Detached {
 		// the destination's parent frame: only the view's own elements may have changed
